@@ -50,7 +50,7 @@ def placements(case, g):
 def graph_half(tier, v, stats, seed):
     cfg = {"edges": {e: {"named": n, "through": t} for e, (n, t) in c03.EDGE_DEPS.items()},
            "types": {t: {"named": n, "through": th, "chars": list(t) + ["@"],
-                         "et": et_of('export_to = "pair§.ts"', "§") if t in ("S1", "S2") else et_of("", "§")}
+                         "et": et_of('export_to = "%s"' % c03.HELPER_PLACES[t], "§") if t in c03.HELPER_PLACES else et_of("", "§")}
                      for t, (n, th) in c03.HELPER_DEPS.items()}}
     if set(cfg["edges"]) != set(c03.EDGES):
         raise ToolError("EDGE_DEPS does not describe every edge kind")
